@@ -1,9 +1,12 @@
 package tokenizers
 
 import (
+	"strings"
+
 	"github.com/pip-services3-gox/pip-services3-expressions-gox/io"
 	"github.com/pip-services3-gox/pip-services3-expressions-gox/tokenizers"
 	"github.com/pip-services3-gox/pip-services3-expressions-gox/tokenizers/generic"
+	"github.com/pip-services3-gox/pip-services3-expressions-gox/tokenizers/utilities"
 )
 
 type MustacheTokenizer struct {
@@ -11,6 +14,8 @@ type MustacheTokenizer struct {
 	special      bool
 	specialState tokenizers.ITokenizerState
 	lastReader   io.IScanner
+	tagStart     bool // the last token was an opening '{{' or '{{{'
+	comment      bool // the last two tokens were an opening and '!': the body of a comment follows
 }
 
 func NewMustacheTokenizer() *MustacheTokenizer {
@@ -63,6 +68,8 @@ func (c *MustacheTokenizer) ReadNextToken() *tokenizers.Token {
 	if c.Scanner != c.lastReader {
 		c.lastReader = c.Scanner
 		c.special = true
+		c.tagStart = false
+		c.comment = false
 	}
 
 	// Process quotes
@@ -73,13 +80,47 @@ func (c *MustacheTokenizer) ReadNextToken() *tokenizers.Token {
 		}
 	}
 
+	// The body of a comment tag '{{! ... }}' is free text up to the closing braces, not a sequence of tokens
+	if c.comment {
+		c.comment = false
+		token := c.readCommentBody()
+		if token != nil && !c.SkipComments() {
+			return token
+		}
+	}
+
 	// Proces other tokens
 	c.special = false
 	token := c.AbstractTokenizer.ReadNextToken()
+	isSymbol := token != nil && token.Type() == tokenizers.Symbol
+	c.comment = c.tagStart && isSymbol && token.Value() == "!"
+	c.tagStart = isSymbol && (token.Value() == "{{" || token.Value() == "{{{")
 	// Switch to quote when '{{' or '{{{' symbols found
 	// (only the closing symbol itself: a decoded string literal can have the same text)
-	if token != nil && token.Type() == tokenizers.Symbol && (token.Value() == "}}" || token.Value() == "}}}") {
+	if isSymbol && (token.Value() == "}}" || token.Value() == "}}}") {
 		c.special = true
 	}
 	return token
+}
+
+// readCommentBody reads the text of a comment up to the closing braces or the end of input; nil when there is no text.
+func (c *MustacheTokenizer) readCommentBody() *tokenizers.Token {
+	line := c.Scanner.PeekLine()
+	column := c.Scanner.PeekColumn()
+	tokenValue := strings.Builder{}
+
+	nextSymbol := c.Scanner.Read()
+	for !utilities.CharValidator.IsEof(nextSymbol) {
+		if nextSymbol == '}' && c.Scanner.Peek() == '}' {
+			c.Scanner.Unread()
+			break
+		}
+		tokenValue.WriteRune(nextSymbol)
+		nextSymbol = c.Scanner.Read()
+	}
+
+	if tokenValue.Len() == 0 {
+		return nil
+	}
+	return tokenizers.NewToken(tokenizers.Comment, tokenValue.String(), line, column)
 }
